@@ -22,6 +22,16 @@ structure SysSt where
   sys : System
   tick : Nat
   out : List String
+  /-- scripted-clock mode: ids are determined, print them -/
+  ids : Bool := false
+
+def showIds (l : List Nat) : String :=
+  "[" ++ ",".intercalate ((l.toArray.qsort (· < ·)).toList.map toString) ++ "]"
+
+def showPlaced (s : System) : String :=
+  let rows := (s.shards.zipIdx).flatMap fun (sh, i) => sh.events.map fun e => (e.key, i, e.id)
+  let rows := (rows.toArray.qsort fun a b => a.1 < b.1 || (a.1 == b.1 && (a.2.1 < b.2.1 || (a.2.1 == b.2.1 && a.2.2 < b.2.2)))).toList
+  "[" ++ ",".intercalate (rows.map fun (k, i, id) => s!"{k}@{i}#{id}") ++ "]"
 
 def sysStep (st : SysSt) (tok : String) : Option SysSt :=
   match tok.splitOn ":" with
@@ -31,17 +41,29 @@ def sysStep (st : SysSt) (tok : String) : Option SysSt :=
     let s' := st.sys.store ctx key [Snel.Gen.idEpochMillis + 1 + st.tick]
     let ok := s'.applied.length != st.sys.applied.length
     some { sys := s', tick := st.tick + 1, out := (if ok then "S=ok" else "S=bad") :: st.out }
+  | ["S", c, k, t] => do
+    -- scripted clock: the hook serves the reading `t`, then `last + 1` for every further call
+    let ctx ← unhex c
+    let key ← k.toNat?
+    let t ← t.toNat?
+    let s' := st.sys.store ctx key ((List.range 8).map (t + ·))
+    let ok := s'.applied.length != st.sys.applied.length
+    some { st with sys := s', out := (if ok then "S=ok" else "S=bad") :: st.out }
   | ["R"] => some { st with sys := st.sys.restart, out := "R" :: st.out }
   -- FLUSH moves events between storage tiers of their shard; the shard's event list is unchanged
   | ["F"] => some { st with out := "F" :: st.out }
   | ["Q", c] => do
     let ctx ← unhex c
     let rows := st.sys.read (some ctx)
+    if st.ids then some { st with out := ("Q=" ++ showIds (rows.map (·.id))) :: st.out } else
     some { st with out := ("Q=" ++ showPairs (rows.map fun e => (e.key, tagBits e.id))) :: st.out }
   | ["QA"] =>
     let rows := st.sys.read none
+    if st.ids then some { st with out := ("QA=" ++ showIds (rows.map (·.id))) :: st.out } else
     some { st with out := ("QA=" ++ showPairs (rows.map fun e => (e.key, tagBits e.id))) :: st.out }
-  | ["W"] => some { st with out := ("W=" ++ showPairs (whereAll st.sys)) :: st.out }
+  | ["W"] =>
+    if st.ids then some { st with out := ("W=" ++ showPlaced st.sys) :: st.out } else
+    some { st with out := ("W=" ++ showPairs (whereAll st.sys)) :: st.out }
   | ["A"] => some { st with out := (s!"A={(st.sys.asked none).length}") :: st.out }
   | _ => none
 
@@ -53,11 +75,12 @@ def answer (line : String) : String :=
       let rs := (List.range 16).map fun i => toString (route ctx (i + 1))
       s!"h={hex16 (ctxHash ctx)} b={if blank ctx then 1 else 0} r={",".intercalate rs}"
     | none => "bad-op"
-  | "sys" :: n :: ops =>
+  | mode :: n :: ops =>
+    if mode != "sys" && mode != "sysclk" then "bad-op" else
     match n.toNat? with
     | some n =>
       if n = 0 then "bad-op" else
-      match ops.foldlM sysStep { sys := System.init n, tick := 0, out := [] } with
+      match ops.foldlM sysStep { sys := System.init n, tick := 0, out := [], ids := mode == "sysclk" } with
       | some st => " ".intercalate st.out.reverse
       | none => "bad-op"
     | none => "bad-op"
